@@ -154,6 +154,76 @@ Get(s, to, n) ==
   LET x == Ch!SecGet(s.st[to], n) IN
   IF x.t = "none" THEN OkV(s, "get", <<>>) ELSE OkV(s, "get", <<<<"sec", x.t, x.n>>>>)
 
+---------------------------------------------------------------------------
+(***************************************************************************)
+(* Node-level and wallet keys: functions of (style, seed, network) ONLY.    *)
+(*                                                                         *)
+(* NodeKey(style, seed, net, which) is the NAME of the specified value;     *)
+(* two names are equal exactly when the code documents the values as the    *)
+(* same function of the seed (signer/derive.rs):                            *)
+(*   master key   native: BIP32-master(HKDF(seed, "bip32 seed"))            *)
+(*                ldk   : BIP32-master(seed)                                 *)
+(*   account key  get_account_extended_key: Native | Ldk =>                  *)
+(*                get_account_extended_key_native =                          *)
+(*                BIP32-master(HKDF(seed, "bip32 seed")) / 0 / 0             *)
+(*                -> the LDK wallet account IS the native one                *)
+(*   wallet keys, addresses, LDK shutdown key (account/2), heartbeat key     *)
+(*                hang from the account key                                  *)
+(*   node id      native: HKDF(seed, "nodeid");  ldk: master / 0'            *)
+(*   bolt12 / persistence keys: master / 9735' , master / 9736'              *)
+(*   onion reply secret: HKDF(seed, "onion reply secret") in every style     *)
+(* The names are used as ghost slots, so "one value per slot" says at once:  *)
+(* the same on independently created nodes, the same before and after a      *)
+(* restart, the same across styles where documented, and equal to the        *)
+(* reference RefTerm - a term over HKDF / BIP32 primitives that the harness  *)
+(* merely evaluates.                                                         *)
+(***************************************************************************)
+WalletWhich == {"account", "shutdown", "hb", "wpkh0", "wpkh1", "wpkh7", "tr1", "sh1"}
+MasterWhich == {"bolt12", "persist"}
+NodeWhich   == WalletWhich \cup MasterWhich \cup {"nodeid", "onion"}
+
+\* (names are plain strings: TLC can only compare values of one shape)
+HkdfName(seed, info)      == "hkdf(" \o seed \o "," \o info \o ")"
+MasterName(style, seed, net) ==
+  "bip32(" \o (IF style = "native" THEN HkdfName(seed, "bip32 seed") ELSE seed) \o "," \o net \o ")"
+AccountName(style, seed, net) ==
+  IF style = "lnd" THEN "lnd-account(" \o seed \o "," \o net \o ")"
+  ELSE "account(" \o MasterName("native", seed, net) \o ")"
+NodeKey(style, seed, net, which) ==
+  which \o ":" \o
+  (CASE which \in WalletWhich -> AccountName(style, seed, net)
+     [] which \in MasterWhich -> MasterName(style, seed, net)
+     [] which = "nodeid"      -> IF style = "native" THEN HkdfName(seed, "nodeid")
+                                 ELSE MasterName(style, seed, net)
+     [] which = "onion"       -> HkdfName(seed, "onion reply secret"))
+
+\* the reference as a term the harness evaluates: ("n" normal / "h" hardened child)
+TSeed            == <<"seed">>
+THkdf(info, t)   == <<"hkdf", info, t>>
+TMaster(style)   == IF style = "native" THEN <<"master", THkdf("bip32 seed", TSeed)>> ELSE <<"master", TSeed>>
+TChild(i, h, t)  == <<"child", i, h, t>>
+TAccount         == TChild(0, "n", TChild(0, "n", <<"master", THkdf("bip32 seed", TSeed)>>))
+RefTerm(style, which) ==
+  CASE which = "account"  -> <<"xpub", TAccount>>
+    [] which = "shutdown" -> <<"p2wpkh-script", TChild(2, "n", TAccount)>>
+    [] which = "hb"       -> <<"hbkey", TAccount>>
+    [] which = "wpkh0"    -> <<"p2wpkh", TChild(0, "n", TAccount)>>
+    [] which = "wpkh1"    -> <<"p2wpkh", TChild(1, "n", TAccount)>>
+    [] which = "wpkh7"    -> <<"p2wpkh", TChild(7, "n", TAccount)>>
+    [] which = "tr1"      -> <<"p2tr", TChild(1, "n", TAccount)>>
+    [] which = "sh1"      -> <<"p2shwpkh", TChild(1, "n", TAccount)>>
+    [] which = "bolt12"   -> <<"pub", TChild(9735, "h", TMaster(style))>>
+    [] which = "persist"  -> <<"pub", TChild(9736, "h", TMaster(style))>>
+    [] which = "nodeid"   -> IF style = "native" THEN <<"pub-of-bytes", THkdf("nodeid", TSeed)>>
+                             ELSE <<"pub", TChild(0, "h", TMaster(style))>>
+    [] which = "onion"    -> <<"hex", THkdf("onion reply secret", TSeed)>>
+NodeRequests == {[op |-> "NodeKey", which |-> w] : w \in NodeWhich}
+           \cup {[op |-> "Ref", which |-> w,
+                  term |-> [native |-> RefTerm("native", w), ldk |-> RefTerm("ldk", w)]] : w \in NodeWhich}
+
+\* both are pure observations; the model's value is the name itself
+NodeKeyReq(s, r) == OkV(s, "nk", <<<<"nk", r.which>>>>)
+
 Step(s, r, K) ==
   CASE r.op = "New"        -> New(s, r.id, K)
     [] r.op = "Setup"      -> Setup(s, r.id, r.al, r.v)
@@ -165,10 +235,12 @@ Step(s, r, K) ==
     [] r.op = "Secret"     -> Secret(s, r.id, r.n, r.via)
     [] r.op = "Provide"    -> Provide(s, r.to, r.n, r.from)
     [] r.op = "Get"        -> Get(s, r.to, r.n)
+    [] r.op = "NodeKey"    -> NodeKeyReq(s, r)
+    [] r.op = "Ref"        -> NodeKeyReq(s, r)
     [] OTHER               -> Err(s)
 
-ObsOps  == {"Basepoints", "Point", "Secret", "Get"}     \* requests that never change the state
-LifeOps == {"New", "Setup", "Forget", "Advance", "Restart", "Basepoints", "Point", "Secret"}
+ObsOps  == {"Basepoints", "Point", "Secret", "Get", "NodeKey", "Ref"}   \* requests that never change the state
+LifeOps == {"New", "Setup", "Forget", "Advance", "Restart", "Basepoints", "Point", "Secret", "NodeKey", "Ref"}
 TreeOps == {"Provide", "Get", "Secret", "Restart"}
 
 (***************************************************************************)
@@ -188,7 +260,7 @@ Requests(K, Vias, Vals) ==
 
 (***************************************************************************)
 (* Observations -> <<slot, value>> pairs.                                   *)
-(*   c      : the configuration (seed, style, network) of the node           *)
+(*   c      : the configuration (seed, style, network) of the node, a STRING *)
 (*   Cid(i) : an opaque name of the CONCRETE channel id of model id i        *)
 (*   vals   : the sequence of values of the reply (interned byte strings;    *)
 (*            abstract tuples when the model itself is explored)             *)
@@ -205,6 +277,14 @@ ObsOf(c, Cid(_), r, ok, vals) ==
     [] r.op = "Provide" /\ Len(vals) = 1
          -> {<<<<c, Cid(r.from), "sec", r.n>>, vals[1]>>}
     [] OTHER -> {}
+
+\* node-level observations: the slot is the NAME of the specified value (channel id 0 = the node),
+\* cfg = [style, seed, net] of the node that answered (for "Ref": of the node the term was evaluated for)
+NodeObsOf(cfg, r, ok, vals) ==
+  IF ok /\ r.op \in {"NodeKey", "Ref"} /\ Len(vals) = 1
+  THEN {<<<<NodeKey(cfg.style, cfg.seed, cfg.net, r.which), 0, r.which, -1>>, vals[1]>>}
+  ELSE {}
+IsNodeSlot(sl) == sl[2] = 0
 
 \* a secret's point, as measured by the harness (compared with Point(id, n): conformance only)
 PtOfSecOf(c, Cid(_), r, ok, vals) ==
@@ -232,8 +312,11 @@ Ghost(g, newp) ==
          clash |-> g.clash \cup {p \in fresh : p[1] \in g.slots},
          coll  |-> g.coll \cup {p \in fresh : KindOf(p) \in g.kinds /\ p[1] \notin g.slots} ]
 
-\* C18a  history independence: a slot never shows two values
-Inv_Stable(g)   == g.clash = {}
+\* C18a  history independence: a channel slot never shows two values
+Inv_Stable(g)   == {p \in g.clash : ~IsNodeSlot(p[1])} = {}
+\* C18d  node-level and wallet keys are the specified functions of (style, seed, network): a NAME
+\*       never shows two values (other node, after restart, other style where documented, reference)
+Inv_Node(g)     == {p \in g.clash : IsNodeSlot(p[1])} = {}
 \* C18b  different channel ids give different keys (same configuration, component, number)
 Inv_Distinct(g) == g.coll = {}
 
